@@ -21,7 +21,7 @@ import random
 import numpy as np
 
 from . import meshgen as mg
-from .common import grid_of, result
+from .common import FILL, grid_of, result
 import uxarray as ux
 
 RULES = [("triangular", o) for o in (1, 4, 8, 10, 12)] + [("gaussian", o) for o in range(1, 11)]
@@ -207,6 +207,32 @@ def _mesh_checks(ck, m, rng, tier, rules):
                     "integrating the constant 1 gives the grid's total area", inputs, [float(one.values), float(total)], float(a.sum()))
         if one.dims != ():
             ck.fail("removes_face_dim:rank1_scalar", "rank-1 integral is not 0-dimensional", "removes exactly the face dimension", inputs, list(one.dims))
+
+    # ---- the constant 1 on a grid given by Cartesian corners only (radii not uniform), whatever was accessed first
+    sizes = {sum(1 for v in row if v != FILL) for row in m["faces"]}
+    if len(sizes) == 1 and nf <= 40:
+        k = sizes.pop()
+        lo, la = np.deg2rad(np.array(m["lon"], float)), np.deg2rad(np.array(m["lat"], float))
+        rad = np.array([rng.uniform(0.6, 1.8) for _ in range(len(lo))])
+        xyz = np.stack([np.cos(la) * np.cos(lo), np.cos(la) * np.sin(lo), np.sin(la)], axis=1) * rad[:, None]
+        verts = np.array([[xyz[v] for v in row[:k]] for row in m["faces"]])
+        for rule, order in rules[:: max(1, len(rules) // 2)]:
+            inputs = {"mesh": name, "quadrature_rule": rule, "order": order, "construction": "from_face_vertices(xyz with radii in [0.6, 1.8], latlon=False)"}
+            ck.cases += 1
+            try:
+                total_first = float(ux.Grid.from_face_vertices(verts, latlon=False).calculate_total_face_area(rule, order))
+                gb = ux.Grid.from_face_vertices(verts, latlon=False)
+                one = float(ux.UxDataArray(np.ones(nf), dims=["n_face"], uxgrid=gb, name="one").integrate(rule, order).values)
+                total_after = float(gb.calculate_total_face_area(rule, order))
+            except Exception as e:  # noqa
+                ck.fail(f"raises:cartesian_constant_one:{type(e).__name__}", f"raises {type(e).__name__}: {str(e)[:160]}",
+                        "integrating the constant 1 gives the grid's total area", inputs)
+                continue
+            if not (np.isclose(total_first, one, rtol=RTOL, atol=0) and np.isclose(total_after, one, rtol=RTOL, atol=0)):
+                ck.fail("constant_one_total_area:cartesian_only_grid",
+                        "on a grid given by Cartesian corners only, calculate_total_face_area (called first on a fresh grid / after "
+                        "integrating) differs from integrating the constant 1 with the same rule and order",
+                        "integrating the constant 1 gives the grid's total area", inputs, [total_first, total_after], one)
 
     # ---- node / edge dimensioned arrays must be rejected
     g = grid_of(m)
